@@ -317,7 +317,7 @@ class FakeT:
         self.loop.call_soon(self._lost, exc)
 
 
-def run_async(kind, seed, script, rt=3.0, answer=0.1, hold=0.0):
+def run_async(kind, seed, script, rt=3.0, answer=0.1, hold=0.0, stop_on_loss=False):
     import random
     import mysensors.gateway_serial as mgs
     import mysensors.gateway_tcp as mgt
@@ -378,7 +378,22 @@ def run_async(kind, seed, script, rt=3.0, answer=0.1, hold=0.0):
         else:
             gw = mgt.AsyncTCPGateway("10.0.0.1", protocol_version="2.2", reconnect_timeout=rt)
         gw.on_conn_made = lambda *a: log.add("MADE", len(a) == 1 and a[0] is gw)
-        gw.on_conn_lost = lambda *a: log.add("LOST", len(a) == 2 and a[0] is gw, type(a[1]).__name__ if len(a) > 1 and a[1] is not None else None)
+        stopped_by_loss = {"task": None}
+
+        async def stop_at_once():
+            # the application reacts to the loss by stopping the gateway, in the very loop iteration that reported it
+            log.add("STOPPING")
+            await gw.stop()
+            for _ in range(4):
+                await asyncio.sleep(0)
+            log.add("STOPPED")
+
+        def on_lost(*a):
+            log.add("LOST", len(a) == 2 and a[0] is gw, type(a[1]).__name__ if len(a) > 1 and a[1] is not None else None)
+            if stop_on_loss and len(a) > 1 and a[1] is not None and stopped_by_loss["task"] is None:
+                stopped_by_loss["task"] = loop.create_task(stop_at_once())
+
+        gw.on_conn_lost = on_lost
         errors = []
         loop.set_exception_handler(lambda lp, ctx: errors.append(repr(ctx.get("exception") or ctx.get("message"))[:160]))
 
@@ -405,6 +420,8 @@ def run_async(kind, seed, script, rt=3.0, answer=0.1, hold=0.0):
             disconnected = False
             stop_now = False
             while i < len(sc):
+                if stopped_by_loss["task"] is not None:
+                    break
                 while i < len(sc) and sc[i] in CONNECT:
                     outcomes.append(sc[i])
                     i += 1
@@ -455,6 +472,13 @@ def run_async(kind, seed, script, rt=3.0, answer=0.1, hold=0.0):
                     log.add("ACTION", "traffic", d.cid)
                     d.feed(REQ)
                     await asyncio.sleep(1.0)
+            if stopped_by_loss["task"] is not None:
+                await stopped_by_loss["task"]
+                if not start_task.done():
+                    start_task.cancel()
+                await asyncio.sleep(6 * rt + 10)
+                log.add("END")
+                return
             if not stop_now:
                 await asyncio.sleep(rng.choice([0.1, rt * 0.4, rt * 1.3]) + hold)
             log.add("STOPPING")
